@@ -76,8 +76,19 @@ func isIfaceMethodKey(prog *Program, key string) bool {
 	if obj == nil {
 		return false
 	}
-	_, isIface := obj.Type().Underlying().(interface{ NumEmbeddeds() int })
-	return isIface
+	if _, isIface := obj.Type().Underlying().(interface{ NumEmbeddeds() int }); isIface {
+		return true
+	}
+	// function-typed struct field
+	if st, ok := obj.Type().Underlying().(interface {
+		NumFields() int
+	}); ok {
+		_ = st
+		if prog.Funcs[key] == nil {
+			return true
+		}
+	}
+	return false
 }
 
 type KnownFinding struct {
